@@ -95,6 +95,7 @@ def state_json(st, prof, thr=-1, p=None, inv=None):
         "bagknown": prof is not None,
         "thr": int(thr),
         "p": rat(p) if p is not None else [0, 0],
+        "vorder": [],
     }
 
 
